@@ -151,5 +151,64 @@ theorem inv_glyph_local (P : Params V) (T : Tables) (hcov : Coverage T = true) (
     rw [hss.regs, hr] at hr'
     exact hinv.rdef r hr'
 
+theorem fuel_pos {gs : Layer} {fuel : Nat} (hb : Bounded gs fuel) : ∃ j, fuel = j + 1 :=
+  ⟨fuel - 1, by have := hb 0 "" "" (ReadsN.refl ""); omega⟩
+
+theorem glyphDeliv_self' {fuel : Nat} {T : Tables} {gs : Layer} {a : String} {ns : List String} {y : String}
+    (hb : Bounded gs fuel) (hy : y ∈ ns) : (Obj.glyph a, y) ∈ glyphDeliv fuel T gs a ns := by
+  obtain ⟨j, hj⟩ := fuel_pos hb
+  subst hj
+  exact glyphDeliv_self hy
+
+theorem cacheOf_eq_of_caches {w w1 : World V} (h : w1.caches = w.caches) (o : Obj) : cacheOf w1 o = cacheOf w o := by
+  unfold cacheOf; rw [h]
+
+/-- an attribute mutator of a glyph (`gmut`) -/
+theorem inv_gmut (P : Params V) (T : Tables) (hcov : Coverage T = true) (w : World V) (g meth : String)
+    (hinv : Inv P T w) (hdom : Dom w) (hdom' : Dom (doGmut T w g meth).1) : Inv P T (doGmut T w g meth).1 := by
+  unfold doGmut at hdom' ⊢
+  by_cases hm : glyphMutators.contains meth = true
+  · by_cases hc : AL.contains w.glyphs g = true
+    · simp only [hm, hc, Bool.not_true, Bool.false_eq_true, if_false] at hdom' ⊢
+      obtain ⟨r, hr⟩ := (AL.contains_iff_get? _ _).mp hc
+      unfold glyphChange at hdom' ⊢
+      have hgs : ({ tick w with glyphs := updGlyph (tick w).glyphs g fun r => { r with attr := w.clock } } : World V).glyphs
+          = AL.set w.glyphs g { r with attr := w.clock } := updGlyph_eq_set _ hr
+      have hd1 := Dom.congr (sameStruct_applyDeliv T _ _).symm hdom'
+      have hposts : hitsReg T "Glyph" (T.postsOf "Glyph" meth) = true := by
+        have h1 : glyphMutators.all (fun m => hitsReg T "Glyph" (T.postsOf "Glyph" m)) = true :=
+          cov_mem hcov (by simp [covList])
+        exact List.all_eq_true.mp h1 meth (by simpa using hm)
+      refine inv_glyph_local P T hcov w _ g r { r with attr := w.clock } (T.postsOf "Glyph" meth) _ hinv hr hgs rfl rfl rfl
+        hd1 (fun y hy => hy) (Or.inr ⟨rfl, rfl⟩) (fun o nm sk v hv => hv) ?_ ?_ ?_ ?_
+      · -- loose
+        intro o ha
+        have : attached w o = false := by
+          rw [← ha]; symm
+          cases o with
+          | contour cid => exact attached_contour_set w _ g r _ hdom.ids.keys hr hgs cid rfl
+          | comp kid => exact attached_comp_set w _ g r _ hdom.ids.keys hr hgs kid rfl
+          | glyph x => exact attached_glyph_set w _ g r _ hr hgs x
+          | groups => rfl
+        exact hinv.loose o this
+      · -- the glyph itself
+        intro nm sk v hs
+        by_cases hbi : isBuiltin T "Glyph" nm = true
+        · exact view_glyph_self_builtin T w _ g r _ hr hgs rfl rfl rfl nm hbi
+        · exfalso
+          have h1 := (get?_applyDeliv T _ _ _ nm sk v hs).1
+          have hreg := hinv.creg _ _ _ _ h1
+          obtain ⟨d, y, hd, hy, hh⟩ := hits_of_hitsReg (regs := w.regs) hinv.rdef hposts hreg (by simpa using hbi)
+          exact not_survivor hs hd (glyphDeliv_self' hd1.bounded hy) hh
+      · -- contours
+        intro cid nm sk v _
+        exact viewOf_contour_of_find T (findContour_set w _ g r _ hdom.ids.keys hr hgs rfl cid rfl rfl) nm
+      · intro kid
+        exact Or.inl (findComp_set w _ g r _ hdom.ids.keys hr hgs rfl kid rfl rfl)
+    · simp only [hm, hc, Bool.not_true, Bool.false_eq_true, if_false, Bool.not_false, if_true]
+      simpa using hinv
+  · simp only [hm, Bool.not_false, if_true]
+    simpa using hinv
+
 end Repr
 end DefconModel
